@@ -285,3 +285,23 @@ func vh_C10_Concurrent() {
 	}
 	vfReach("end")
 }
+
+// the util-instance constructor Publisher.New() (an interface{} publisher) obeys the same delivery clauses
+func vh_C10_UtilInstance() {
+	p := Publisher.New()
+	var order []int
+	var got []interface{}
+	n := vfRange("n", 1, 3)
+	for i := 0; i < n; i++ {
+		id := i
+		p.Subscribe(Subscription[interface{}]{OnNext: func(v interface{}) { order = append(order, id); got = append(got, v) }})
+	}
+	x := vfInt("x")
+	vfNoPanic("nopanic", func() { p.Publish(x) })
+	vfAssert("A-exactly-once", len(order) == n)
+	for i := 0; i < len(order) && i < n; i++ {
+		vfAssert("subscription-order", order[i] == i)
+		vfAssert("value", got[i] == interface{}(x))
+	}
+	vfReach("end")
+}
